@@ -288,8 +288,55 @@ def c20():
     }
 
 
+def c18():
+    import suite_labels
+    return {
+        "props_file": "Props/C18.v",
+        "theorems": ["C18_assignments", "C18_same_label_same_cluster", "C18_never_unlabeled",
+                     "C18_refused", "C18_sorted_largest_first", "C18_sklearn_labels",
+                     "C18_predict_is_argmin", "C18_jaccard_symmetric"],
+        "model_files": ["Model/Obs.v", "Model/ObsBits.v", "Model/Labels.v"],
+        "suites": [suite_labels.suite_labels],
+        "search": suite_labels.search_c18,
+        "replay": suite_labels.replay_c18,
+        "level": "proof",
+        "rule": "fitted states reached through the scikit-learn wrappers (packed and unpacked estimator, "
+                "compute_labels on/off, 1-3 incremental fit / partial_fit / fit_predict calls), all six "
+                "criteria; labels_, fit_predict, get_assignments, predict, transform (bit patterns) and "
+                "dump_assignments compared with Model/Labels.v and with the clusters directly",
+        "trusted": HIST_TRUST + ["SciPy's boolean Jaccard and sklearn.pairwise_distances(_argmin) "
+                                 "(modelled as |a xor b|/|a or b| and first minimiser; checked, not proved)",
+                                 "sklearn validation / metadata machinery is not modelled"],
+        "assumptions": ["query rows are non-empty (as the property states)"],
+    }
+
+
+def c16():
+    import suite_fps
+    return {
+        "props_file": "Props/C16.v",
+        "theorems": [],
+        "model_files": ["Model/FpsUtil.v"],
+        "suites": [suite_fps.suite_file_seq, suite_fps.suite_batches, suite_fps.suite_fps_cli],
+        "search": suite_fps.search_c16,
+        "replay": suite_fps.replay_c16,
+        "findings": {"multi-file-skip-invalid-no-index": suite_fps.finding_multi_file_skip_invalid},
+        "level": "proof",
+        "rule": "file-seq: 1-5 files (incl. empty ones) x sorted index lists with repeats / gaps, unsorted "
+                "and out-of-range lists; batches: all (length, n) small; CLI: fps-split (-n / -m), "
+                "fps-merge, fps-shuffle, fps-info (file, dir, 1-D, float), fps-from-smiles over parts x "
+                "processes x pack with invalid SMILES at arbitrary positions (RDKit in-process API as "
+                "reference)",
+        "trusted": COMMON_TRUST + ["RDKit (fp_of is an oracle), numpy Generator.shuffle (a permutation)",
+                                   "translator for parse_num_per_batch (GenTieUtil.v)"],
+        "assumptions": ["multi-process filling: workers write disjoint row ranges / distinct files "
+                        "(checked by running 1 and 2 processes, not proved)"],
+    }
+
+
 SPECS = {
     "C01": c01,
+    "C18": c18,
     "C20": c20,
     "C04": c04,
     "C07": c07,
